@@ -20,8 +20,7 @@ TRUSTED = ['harness/pv/translate.py (python ast -> Lean, validated each run on t
 ASSUMPTIONS = ['CPython datetime: toordinal/fromordinal/weekday/field access/timedelta arithmetic behave as PygModel/Greg.lean (sampled on every line)',
                're: the period pattern matches sign, ASCII digits and one unit letter; str.lower on ASCII',
                'a leftover suffix after the last period token is not a time-zone name (generators keep away from tz names)',
-               'time zones, relativedelta and timeseries arguments are not modelled',
-               'OverflowError raised by an intermediate sum inside the business-day block (within a week of 0001-01-01 / 9999-12-31) is not modelled']
+               'time zones, relativedelta and timeseries arguments are not modelled']
 
 D = datetime.datetime
 TD = datetime.timedelta
@@ -158,8 +157,14 @@ def generate(rng, tier):
         yield dict(tag='malformed', lines=[line('bump', D(2020, 2, 28), s)])
     # --- range ends
     for t, s in [(D(9999, 12, 1), '1m'), (D(9999, 12, 31), '1d'), (D(1, 1, 1), '-1d'), (D(1, 1, 5), '-1m'), (D(1, 3, 1), '-1y'),
-                 (D(9999, 1, 1), '1y'), (D(9000, 1, 1), '60y'), (D(1, 1, 2), '-3b'), (D(9999, 12, 31, 23), '1h')]:
+                 (D(9999, 1, 1), '1y'), (D(9000, 1, 1), '60y'), (D(1, 1, 2), '-3b'), (D(1, 1, 3), '-1b'), (D(9999, 12, 31, 23), '1h')]:
         yield dict(tag='range-end', lines=[line('bump', t, s)])
+    # the business-day block constructs up to three datetimes; each can raise OverflowError although the final date exists
+    # (0001-01-03 '-1b': t - 7 days).  The model walks the generated path Gen.bOffPath; outside the claimed years, must still agree.
+    ends = [D(1, 1, 1) + TD(k) for k in range(12)] + [D(9999, 12, 31) - TD(k) for k in range(12)]
+    for t in ends:
+        for n in (list(range(-12, 13)) if quick else list(range(-25, 26))):
+            yield dict(tag='range-end-b', lines=[line('bump', t + (TD(hours=23, minutes=59) if n % 3 == 0 else TD(0)), '%db' % n)])
     if not quick:
         # every start day of the 1900-2300 cycle, a few (unit, n) each
         t = TMIN
@@ -208,7 +213,7 @@ def run_line(state, sx):
 
 def in_claim(case):
     tag = case.get('tag', '').replace('corpus:', '')
-    return not (tag in ('malformed', 'range-end', 'monthly-intraday'))
+    return not (tag in ('malformed', 'range-end', 'range-end-b', 'monthly-intraday'))
 
 
 def compare(case, i, line, ir, mr):
